@@ -272,3 +272,57 @@ __CPROVER_assigns(verif_exc)
 ENSURES(first_argument_shortcut_is_pointwise_sound, (__CPROVER_return_value & 1) != 0)
 ENSURES(second_argument_shortcut_is_pointwise_sound, (__CPROVER_return_value & 2) != 0)
 ;
+
+/* ---- MT shortcuts, point-wise with NON-TERMINAL operands ------------------------------------------------------
+ * a node handle > 0 is a stored node; at an arbitrary assignment its function takes the value of the ghost terminal handle (pa, pb).
+ * A shortcut that answers "the result is the first (second) operand" is sound iff the kernel applied to the operands' values at that
+ * assignment gives the value of that operand there, and raises nothing. */
+#define MTPW_REQ() \
+    __CPROVER_requires(__CPROVER_is_fresh(fa, sizeof(*fa)) && __CPROVER_is_fresh(fb, sizeof(*fb)) && __CPROVER_is_fresh(fc, sizeof(*fc))) \
+    __CPROVER_requires(fa->the_terminal_type == terminal_type__INTEGER && fb->the_terminal_type == terminal_type__INTEGER && fc->the_terminal_type == terminal_type__INTEGER) \
+    __CPROVER_requires(a != INT_MIN && b != INT_MIN && pa <= 0 && pb <= 0 && pa != INT_MIN && pb != INT_MIN && verif_exc == 0) \
+    /* the caller consults the shortcuts only after the terminal-terminal case went to the kernel */ \
+    __CPROVER_requires(a > 0 || b > 0) \
+    __CPROVER_requires(fa->deflt.reduction == fb->deflt.reduction)
+int lemma_mt_plus_shortcuts_pw(struct forest *fa, struct forest *fb, struct forest *fc, node_handle a, node_handle b, node_handle pa, node_handle pb)
+MTPW_REQ()
+__CPROVER_assigns(verif_exc)
+ENSURES(first_argument_shortcut_is_pointwise_sound, (__CPROVER_return_value & 1) != 0)
+ENSURES(second_argument_shortcut_is_pointwise_sound, (__CPROVER_return_value & 2) != 0)
+;
+int lemma_mt_minus_shortcuts_pw(struct forest *fa, struct forest *fb, struct forest *fc, node_handle a, node_handle b, node_handle pa, node_handle pb)
+MTPW_REQ()
+__CPROVER_assigns(verif_exc)
+ENSURES(first_argument_shortcut_is_pointwise_sound, (__CPROVER_return_value & 1) != 0)
+ENSURES(second_argument_shortcut_is_pointwise_sound, (__CPROVER_return_value & 2) != 0)
+;
+int lemma_mt_mult_shortcuts_pw(struct forest *fa, struct forest *fb, struct forest *fc, node_handle a, node_handle b, node_handle pa, node_handle pb)
+MTPW_REQ()
+__CPROVER_assigns(verif_exc)
+ENSURES(first_argument_shortcut_is_pointwise_sound, (__CPROVER_return_value & 1) != 0)
+ENSURES(second_argument_shortcut_is_pointwise_sound, (__CPROVER_return_value & 2) != 0)
+;
+int lemma_mt_div_shortcuts_pw(struct forest *fa, struct forest *fb, struct forest *fc, node_handle a, node_handle b, node_handle pa, node_handle pb)
+MTPW_REQ()
+__CPROVER_assigns(verif_exc)
+ENSURES(first_argument_shortcut_is_pointwise_sound, (__CPROVER_return_value & 1) != 0)
+ENSURES(second_argument_shortcut_is_pointwise_sound, (__CPROVER_return_value & 2) != 0)
+;
+int lemma_mt_mod_shortcuts_pw(struct forest *fa, struct forest *fb, struct forest *fc, node_handle a, node_handle b, node_handle pa, node_handle pb)
+MTPW_REQ()
+__CPROVER_assigns(verif_exc)
+ENSURES(first_argument_shortcut_is_pointwise_sound, (__CPROVER_return_value & 1) != 0)
+ENSURES(second_argument_shortcut_is_pointwise_sound, (__CPROVER_return_value & 2) != 0)
+;
+int lemma_mt_max_shortcuts_pw(struct forest *fa, struct forest *fb, struct forest *fc, node_handle a, node_handle b, node_handle pa, node_handle pb)
+MTPW_REQ()
+__CPROVER_assigns(verif_exc)
+ENSURES(first_argument_shortcut_is_pointwise_sound, (__CPROVER_return_value & 1) != 0)
+ENSURES(second_argument_shortcut_is_pointwise_sound, (__CPROVER_return_value & 2) != 0)
+;
+int lemma_mt_min_shortcuts_pw(struct forest *fa, struct forest *fb, struct forest *fc, node_handle a, node_handle b, node_handle pa, node_handle pb)
+MTPW_REQ()
+__CPROVER_assigns(verif_exc)
+ENSURES(first_argument_shortcut_is_pointwise_sound, (__CPROVER_return_value & 1) != 0)
+ENSURES(second_argument_shortcut_is_pointwise_sound, (__CPROVER_return_value & 2) != 0)
+;
